@@ -185,13 +185,17 @@ Two(s, i) == IF i < Len(s) THEN SubSeq(s, i, i + 1) ELSE ""
 IdEnd(s, i) == Min({j \in (i + 1)..(Len(s) + 1) : j = Len(s) + 1 \/ Ch(s, j) \notin Alnum})
 
 \* Tokens of line number l (zero-based) of the text; inB: inside a block comment at the start.
-\* A token is [k |-> "id" | "p", v |-> text, l |-> line, c |-> start column, e |-> end column]
+\* A token is [k |-> "id" | "p" | "c", v |-> text, l |-> line, c |-> start column, e |-> end column];
+\* "c" is a comment (a block comment is reported where it ends; v and c are not meaningful for it).
 RECURSIVE Scan(_, _, _, _)
 Scan(s, l, i, inB) ==
   IF i > Len(s) THEN [toks |-> <<>>, inB |-> inB]
-  ELSE IF inB THEN (IF Two(s, i) = "*/" THEN Scan(s, l, i + 2, FALSE) ELSE Scan(s, l, i + 1, TRUE))
+  ELSE IF inB THEN (IF Two(s, i) = "*/"
+                    THEN LET r == Scan(s, l, i + 2, FALSE)
+                         IN [toks |-> <<[k |-> "c", v |-> "", l |-> l, c |-> i - 1, e |-> i + 1]>> \o r.toks, inB |-> r.inB]
+                    ELSE Scan(s, l, i + 1, TRUE))
   ELSE IF Ch(s, i) \in Blank THEN Scan(s, l, i + 1, FALSE)
-  ELSE IF Two(s, i) = "//" THEN [toks |-> <<>>, inB |-> FALSE]
+  ELSE IF Two(s, i) = "//" THEN [toks |-> <<[k |-> "c", v |-> "", l |-> l, c |-> i - 1, e |-> Len(s)]>>, inB |-> FALSE]
   ELSE IF Two(s, i) = "/*" THEN Scan(s, l, i + 2, TRUE)
   ELSE IF Ch(s, i) \in Alnum
        THEN LET j == IdEnd(s, i)
@@ -204,7 +208,8 @@ Scan(s, l, i, inB) ==
 TopKeywords == {"class", "interface", "private"}
 HasTop(toks) == \E i \in 1..Len(toks) : toks[i].k = "id" /\ toks[i].v \in TopKeywords
 
-\* tokens of the text up to (and including the line of) the first class/interface/private keyword
+\* tokens (comments included) of the text up to (and including the line of) the first
+\* class/interface/private keyword
 HeaderTokens(T) ==
   LET step(acc, i) ==
         IF acc.done THEN acc
@@ -215,7 +220,7 @@ HeaderTokens(T) ==
 IsId(t, v) == t.k = "id" /\ t.v = v
 IsP(t, v)  == t.k = "p" /\ t.v = v
 NoPos == <<0 - 1, 0 - 1>>
-Bad == [ok |-> FALSE, table |-> {}, rest |-> NoPos, lastEnd |-> NoPos, nImports |-> 0]
+Bad == [ok |-> FALSE, table |-> {}, rest |-> NoPos, lastEnd |-> NoPos, lastExtent |-> NoPos, nImports |-> 0]
 
 \* names:  Id ("," Id)* "}"   starting at token i; returns [ok, names, next]
 RECURSIVE ParseNames(_, _, _)
@@ -232,9 +237,17 @@ ParseModule(toks, i, name) ==
   THEN ParseModule(toks, i + 2, name \o "." \o toks[i + 2].v)
   ELSE [name |-> name, last |-> i]
 
-\*  ( "import" "{" names "}" "from" module [";"] )*  then a class/interface/private keyword or the end
-RECURSIVE ParseImports(_, _, _)
-ParseImports(toks, i, acc) ==
+\* The end of the comments that directly follow token number j of `full` (the end of that token if
+\* none does).  source_parser.rs gives an import without `;` this end: it takes the parser's
+\* last_location after peeking for a `.`, and peeking walks over comments.
+ExtentEnd(full, j) ==
+  LET run == {i \in (j + 1)..Len(full) : \A x \in (j + 1)..i : full[x].k = "c"}
+  IN IF run = {} THEN <<full[j].l, full[j].e>> ELSE <<full[Max(run)].l, full[Max(run)].e>>
+
+\*  ( "import" "{" names "}" "from" module [";"] )*  then a class/interface/private keyword or the end.
+\*  toks: the tokens that are not comments, each with its index ix in full.
+RECURSIVE ParseImports(_, _, _, _)
+ParseImports(full, toks, i, acc) ==
   IF i > Len(toks) THEN [acc EXCEPT !.ok = TRUE]
   ELSE IF toks[i].k = "id" /\ toks[i].v \in TopKeywords THEN [acc EXCEPT !.ok = TRUE, !.rest = <<toks[i].l, toks[i].c>>]
   ELSE IF ~IsId(toks[i], "import") THEN Bad
@@ -245,13 +258,18 @@ ParseImports(toks, i, acc) ==
        ELSE LET m    == ParseModule(toks, ns.next + 1, toks[ns.next + 1].v)
                 semi == m.last + 1 <= Len(toks) /\ IsP(toks[m.last + 1], ";")
                 last == IF semi THEN m.last + 1 ELSE m.last
-            IN ParseImports(toks, last + 1,
+            IN ParseImports(full, toks, last + 1,
                  [acc EXCEPT !.table = @ \cup {<<m.name, n>> : n \in ns.names},
                              !.lastEnd = <<toks[last].l, toks[last].e>>,
+                             !.lastExtent = IF semi THEN <<toks[last].l, toks[last].e>> ELSE ExtentEnd(full, toks[last].ix),
                              !.nImports = @ + 1])
 
-\* [ok, table, rest (position of the first toplevel keyword), lastEnd (end of the last import), nImports]
-ParseHeader(T) == ParseImports(HeaderTokens(T), 1, [Bad EXCEPT !.ok = TRUE])
+\* [ok, table, rest (position of the first toplevel keyword), lastEnd (end of the last token of the last
+\*  import), lastExtent (where the implementation's parser says the last import ends), nImports]
+ParseHeader(T) ==
+  LET raw  == HeaderTokens(T)
+      full == [i \in DOMAIN raw |-> [k |-> raw[i].k, v |-> raw[i].v, l |-> raw[i].l, c |-> raw[i].c, e |-> raw[i].e, ix |-> i]]
+  IN ParseImports(full, SelectSeq(full, LAMBDA t : t.k # "c"), 1, [Bad EXCEPT !.ok = TRUE])
 
 \* the text from a position to the end
 Suffix(T, p) == << From(T[p[1] + 1], p[2]) >> \o SubSeq(T, p[1] + 2, Len(T))
@@ -272,13 +290,15 @@ Good(T, es, m, k) ==
 
 -----------------------------------------------------------------------------
 (* 4. The shapes of fix the implementation is known to produce (ast_differ.rs: one insertion at  *)
-(* the end of the last existing import, or at the start of the document when there is none).     *)
+(* the end of the last existing import - as far as the parser says it extends -, or at the start  *)
+(* of the document when there is none).                                                          *)
 FixVariants == {"glue", "newline"}
 Fix(T, m, k, variant) ==
   LET h    == ParseHeader(T)
       stmt == "import { " \o k \o " } from " \o m \o ";"
+      at   == h.lastExtent
   IN IF h.nImports = 0
      THEN << [sl |-> 0, sc |-> 0, el |-> 0, ec |-> 0, text |-> stmt] >>
-     ELSE << [sl |-> h.lastEnd[1], sc |-> h.lastEnd[2], el |-> h.lastEnd[1], ec |-> h.lastEnd[2],
+     ELSE << [sl |-> at[1], sc |-> at[2], el |-> at[1], ec |-> at[2],
               text |-> IF variant = "newline" THEN "\n" \o stmt ELSE stmt] >>
 =============================================================================
